@@ -53,6 +53,7 @@ import (
 //@   loop 1 invariant len(hole) == f.pos - oldLen && 0 <= oldLen && oldLen < f.pos && len(f.n.data) == f.pos
 //@   loop 1 invariant forall k int :: 0 <= k && k < oldLen ==> f.n.data[k] == old(f.n.data[k])
 //@   loop 1 modifies elems(hole)
+//@   timeout 40
 //@   modifies f.pos, f.n.data, f.n.modTime, elems(f.n.data), spare(f.n.data)
 //@   allocates
 
